@@ -7,9 +7,10 @@ package main
 import (
 	"fmt"
 	"math"
+	"strings"
 )
 
-var _ = []any{fmt.Sprint, math.Pow}
+var _ = []any{fmt.Sprint, math.Pow, strings.Index}
 
 // S1002: the operand of the comparison with a bool constant is itself a comparison;
 // "!" + operand binds to the operand's first term ("!i1 != i2": does not type-check).
@@ -89,5 +90,90 @@ func R_QF1002_1(in In) (res string) {
 	case i0 == 2 || i0 == 1:
 		res += "b"
 	}
+	return res
+}
+
+// S1033: the guard evaluates the key twice; an effectful key is evaluated once after the fix.
+func R_S1033_1(in In) (res string) {
+	m := map[string]int{"a": 1, "b": 2}
+	if _, ok := m[ts(1, in.s0)]; ok {
+		delete(m, ts(1, in.s0))
+	}
+	res += fmt.Sprint(len(m))
+	return res
+}
+
+// SA4013 "Remove double negation": the operand lost its parentheses ("!!!(s0 == s1)" became "!s0 == s1").
+func R_SA4013_1(in In) (res string) {
+	res += fmt.Sprint(!!!(in.s0 == in.s1))
+	return res
+}
+
+// S1001 / S1018: a loop that panics when the destination is too short (or the bounds are
+// negative) is replaced by copy(), which copies the shorter length / panics on other bounds.
+func R_S1001_1(in In) (res string) {
+	xs := in.xs
+	dst := make([]int, 1)
+	for i, x := range xs {
+		dst[i] = x
+	}
+	res += fmt.Sprint(dst)
+	return res
+}
+
+func R_S1018_1(in In) (res string) {
+	ys := append([]int(nil), in.xs...)
+	n, off := len(ys)-1, 2
+	for i := 0; i < n; i++ {
+		ys[i] = ys[off+i]
+	}
+	res += fmt.Sprint(ys)
+	return res
+}
+
+// Guards: comparisons S1003 must leave alone (if it ever rewrites one, the fix is executed
+// and compared), and every comparison operator under a De Morgan negation.
+func G_S1003_1(in In) (res string) {
+	res += fmt.Sprint(strings.Index(in.s0, in.s1) == 0)
+	return res
+}
+
+func G_S1003_2(in In) (res string) {
+	res += fmt.Sprint(strings.Index(in.s0, in.s1) > 0)
+	return res
+}
+
+func G_S1003_3(in In) (res string) {
+	res += fmt.Sprint(strings.Index(in.s0, in.s1) >= -1)
+	return res
+}
+
+func G_S1003_4(in In) (res string) {
+	res += fmt.Sprint(strings.Index(in.s0, in.s1) != 0)
+	return res
+}
+
+func G_S1003_5(in In) (res string) {
+	res += fmt.Sprint(strings.Index(in.s0, in.s1) < 1)
+	return res
+}
+
+func G_QF1001_1(in In) (res string) {
+	res += fmt.Sprint(!(in.b0 && in.i0 <= in.i1))
+	return res
+}
+
+func G_QF1001_2(in In) (res string) {
+	res += fmt.Sprint(!(in.b0 && in.i0 >= in.i1))
+	return res
+}
+
+func G_QF1001_3(in In) (res string) {
+	res += fmt.Sprint(!(in.b0 || in.i0 < in.i1))
+	return res
+}
+
+func G_QF1001_4(in In) (res string) {
+	res += fmt.Sprint(!(in.b0 || in.i0 != in.i1 && in.s0 > in.s1))
 	return res
 }
